@@ -1,7 +1,78 @@
 import AmqModel.Spec.Smoother
+import AmqModel.Lemmas.Smoother
+/-!
+# C14 — ConfirmSmoother emits every tag once, in order, with its true outcome
+
+Property theorems only (helper lemmas live in `AmqModel/Lemmas/Smoother.lean`).
+-/
 namespace AmqModel.Props.C14
 open AmqModel.Smoother
 
-theorem placeholder : (Smoother.new 1).expected = 1 := rfl
+/-- The `Drop` loop of the iterator terminates, for every iterator state: with the fuel
+    `drainFuel it` the run ends in a `done` iterator. -/
+theorem drop_loop_terminates (it : It) : (drainIt (drainFuel it) it).1.done = true :=
+  drainIt_drainFuel_done it
+
+/-- More fuel than `drainFuel` changes nothing (so `process` is the fuel-free meaning of
+    "run the iterator to completion"). -/
+theorem drain_fuel_irrelevant (it : It) (n : Nat) (h : drainFuel it ≤ n) :
+    drainIt n it = drainIt (drainFuel it) it :=
+  drainIt_fuel_mono _ it (drainIt_drainFuel_done it) n h
+
+/-- Nothing changes if a returned iterator is dropped before it is exhausted: the smoother is
+    left in the same state as by exhausting it, and the caller saw the first `k` items. -/
+theorem drop_irrelevant (k : Nat) (st : St) (c : Confirm) :
+    (takeDrop k st c).1 = (process st c).1 ∧ (takeDrop k st c).2 = (process st c).2.take k :=
+  takeDrop_process k st c
+
+/-- The spec's frontier is what the property text says: the least tag `≥ start` nobody covered. -/
+theorem frontier_spec (start : Nat) (h : List Confirm) :
+    start ≤ frontier start h ∧ isCovered h (frontier start h) = false ∧
+      ∀ t, start ≤ t → t < frontier start h → isCovered h t = true :=
+  frontier_spec' start h
+
+/-- Full statement on the valid domain: for every start and every valid history (any length, any
+    arrival order, any ack/nack mix), the outputs of the successive `process` calls are exactly the
+    outputs the stateless specification prescribes, call by call. -/
+theorem refines_spec (start : Nat) (h : List Confirm) (hv : Valid start h = true) :
+    (run (Smoother.new start) h).2 = specRun start [] h :=
+  run_refines h [] (Smoother.new start) (RInv_new start) hv
+
+/-- ... and the specification's concatenated output is `start, start+1, …` up to the frontier,
+    each tag once, ascending, each with the outcome of the raw confirmation that first covered it
+    (`outAt h t` = kind of `cover h t`), i.e. every tag is emitted as soon as everything up to it
+    is confirmed (it is below the frontier) and never before. -/
+theorem spec_flatten (start : Nat) (p h : List Confirm) :
+    (specRun start p h).flatten =
+      (List.range' (frontier start p) (frontier start (p ++ h) - frontier start p)).map (outAt (p ++ h)) :=
+  specRun_flatten start p h
+
+/-- Safety half for ARBITRARY histories (duplicates, stale tags): each call emits strictly
+    consecutive tags starting at the smoother's `expected`, advances `expected` by exactly that
+    many, and never emits a tag nobody confirmed. -/
+theorem safety_arbitrary (start : Nat) (h : List Confirm) (c : Confirm) :
+    let st := (run (Smoother.new start) h).1
+    let r := process st c
+    r.2.map (·.tag) = List.range' st.expected r.2.length ∧
+    r.1.expected = st.expected + r.2.length ∧
+    ∀ o ∈ r.2, isCovered (h ++ [c]) o.tag = true := by
+  intro st r
+  have hI : SInv h st := by simpa using run_SInv [] h _ (SInv_new start)
+  have ⟨h1, h2, h3, _⟩ := process_safe h st c hI
+  exact ⟨h1, h2, h3⟩
+
+/-- `expected` after any history is `start` plus the number of items emitted so far. -/
+theorem expected_counts (start : Nat) (h : List Confirm) :
+    (run (Smoother.new start) h).1.expected = start + (run (Smoother.new start) h).2.flatten.length :=
+  run_expected [] h _ (SInv_new start)
+
+/-! Non-vacuity and regression witnesses -/
+
+example : Valid 1 [⟨.nack, 2, false⟩, ⟨.ack, 3, true⟩] = true := by decide
+example : (run (Smoother.new 1) [⟨.nack, 2, false⟩, ⟨.ack, 3, true⟩]).2
+    = [[], [⟨.ack, 1⟩, ⟨.nack, 2⟩, ⟨.ack, 3⟩]] := by decide
+/-- D4: the code before the repair reports the nacked tag 2 as acked. -/
+example : (runG true (Smoother.new 1) [⟨.nack, 2, false⟩, ⟨.ack, 3, true⟩]).2
+    = [[], [⟨.ack, 1⟩, ⟨.ack, 2⟩, ⟨.ack, 3⟩]] := by decide
 
 end AmqModel.Props.C14
